@@ -22,10 +22,16 @@ DROP_LOCALS = {
 
 
 class Canon(object):
-    def __init__(self, world=None, relative_time=True):
+    def __init__(self, world=None, relative_time=True, timers='absolute', drop=()):
         self.memo = {}
+        self.drop = frozenset(drop)   # fields the harness knows to be dead under its configuration
         self.world = world
         self.relative_time = relative_time
+        # timers='absolute': timer fields are kept as session-time values (always sound).
+        # timers='relative': they are kept as offsets from "now" -- only sound when nothing depends on
+        # absolute session time, i.e. ping_rate == 0 (the next-ping grid is the only absolute-time reader).
+        self.timers = timers
+        self.st = None
 
     def walk(self, o):
         if o is None or isinstance(o, (bool, int, float, str)):
@@ -89,8 +95,14 @@ class Canon(object):
                 return ('obj', cls.__qualname__, o.canon())
             return ('opaque', cls.__module__, cls.__qualname__)
         out = []
+        if self.timers == 'relative' and self.st is None and self.world is not None:
+            sess = o if cls.__name__ == 'WebsocketSession' else getattr(getattr(o, 'state', None), 'session', None) \
+                if cls.__name__ == 'WebSocket' else None
+            start = getattr(sess, '_start_time', None)
+            if start is not None:
+                self.st = self.world.clock.t - start
         for k, v in sorted(fields, key=lambda kv: kv[0]):
-            if k in DROP_FIELDS:
+            if k in DROP_FIELDS or k in self.drop:
                 continue
             if cls.__name__ == 'WebsocketSession':
                 if k == '_buffer':
@@ -98,6 +110,14 @@ class Canon(object):
                 if k == '_start_time' and self.relative_time:
                     v = None if v is None else round(self.world.clock.t - v, 9) if self.world else v
                     k = 'session_time'
+                    if self.timers == 'relative' and v is not None:
+                        v = 'started'
+                elif k in ('_poll_start', '_next_ping', '_last_pong') and self.timers == 'relative' \
+                        and isinstance(v, (int, float)) and self.st is not None:
+                    v = round(v - self.st, 9)
+            elif k == 'sent_close_time' and self.timers == 'relative' and isinstance(v, (int, float)) \
+                    and self.st is not None:
+                v = round(v - self.st, 9)
             out.append((k, self.walk(v)))
         return ('obj', cls.__qualname__, tuple(out))
 
@@ -157,8 +177,8 @@ def _cheap(c, v):
     return c.walk(v)
 
 
-def state_tuple(ws, world=None, extra=None, relative_time=True, modules=True):
-    c = Canon(world, relative_time)
+def state_tuple(ws, world=None, extra=None, relative_time=True, modules=True, timers='absolute', drop=()):
+    c = Canon(world, relative_time, timers, drop)
     parts = [c.walk(ws)]
     if modules:
         parts.append(tuple((k, _cheap(c, v)) for k, v in module_roots()))
